@@ -353,7 +353,7 @@ def jobs(tier, seed):
             out.append(dict(base, variant=variant, op="rowslice", s=s))
     for op in ("colint", "rowmax", "rowargmax", "npsum", "npmax", "colcounts", "rowmean", "npmean"):
         out.append(dict(base, variant="ragged", op=op))
-    for s in (None, 1, 2, -1) + (() if q else (3, -2)):
+    for s in (None, 1, 2, -1, -2) + (() if q else (3, -3)):
         for pres in ([[0, 0], [1, 0]], [[0, 1]], [[1, 1]]):
             # sharded by the number of rows and the first row's length (the deepest call stack of the repository)
             out.append(dict(base, variant="ragged", op="colslice", s=s, pres=pres, Rfix=1))
